@@ -1978,7 +1978,7 @@ class Rule(metaclass=LogicalType):
         # that was built before it reached the declaration (Array['ref'], cond | List['ref'])
         registered = False
         origin = cls.__origin__
-        if isinstance(origin, LogicalType) and origin.combinator:
+        if isinstance(origin, LogicalType) and origin is not cls:
             if origin.register_forward_refs(
                 global_vars=global_vars,
                 forward_refs=forward_refs,
@@ -2023,8 +2023,9 @@ class Rule(metaclass=LogicalType):
         # an override version of LogicalType.resolve_forward_refs
         resolved = False
         origin = cls.__origin__
-        if isinstance(origin, LogicalType) and origin.combinator:
+        if isinstance(origin, LogicalType) and origin is not cls:
             # like Optional['ref'] with field constraints or a default: Rule[AnyOf(ref, None)]
+            # (or a type built before the declaration, under the field's constraints: Rule[Array['ref']])
             if origin.resolve_forward_refs():
                 resolved = True
         if not cls.__args__:
